@@ -257,11 +257,12 @@ func (lh *WorkerLoop) onNewConsensusRound(prevBlock interfaces.Block, prevBlockP
 	lh.logger.ConsensusTrace("starting a new consensus round", nil)
 
 	lh.leanHelixTerm = leanhelixterm.NewLeanHelixTerm(ctx, lh.logger, lh.config, lh.state, lh.electionTrigger, lh.onCommit, prevBlock, prevBlockProofBytes, canBeFirstLeader)
+	// notify before replaying cached messages: they may complete this height and start the next round re-entrantly
+	if lh.onNewConsensusRoundCallback != nil {
+		lh.onNewConsensusRoundCallback(ctx, hv.Height(), prevBlock, canBeFirstLeader)
+	}
 	lh.logger.Debug("onNewConsensusRound() Calling ConsumeCacheMessages for H=%d", lh.state.Height())
 	lh.filter.ConsumeCacheMessages(lh.leanHelixTerm)
-	if lh.onNewConsensusRoundCallback != nil {
-		lh.onNewConsensusRoundCallback(ctx, lh.state.Height(), prevBlock, canBeFirstLeader)
-	}
 }
 
 func (lh *WorkerLoop) cleanupCurrentTerm() {
